@@ -14,7 +14,7 @@ OUT = os.path.join(os.path.dirname(os.path.dirname(os.path.abspath(__file__))), 
 
 import shutil as _sh
 Z3NEW = _sh.which('z3-new') or '/opt/veriftools/pyvenv/bin/z3'
-BUDGETS = {'quick': (5000, 8, 0), 'thorough': (30000, 60, 0), 'screen': (4000, 0, 0)}    # screen: z3 only (model search)
+BUDGETS = {'quick': (12000, 30, 0), 'thorough': (30000, 90, 0), 'screen': (4000, 0, 0), 'z3first': (12000, 0, 0), 'cvc5only': (0, 30, 0)}    # screen: z3 only (model search)
 
 
 def used_names(exprs):
@@ -203,9 +203,11 @@ def solve_one(job):
     # the z3 5.x binary with a hard process time limit (the API's soft timeout is not honoured inside some sequence
     # solver loops: a query then hangs the check)
     model = None
-    r, dt, err = _cli([Z3NEW, '-T:%d' % max(1, zt // 1000)], smt2, max(1, zt // 1000))
-    res['tried'].append(('z3-%s' % z3.get_version_string(), r, round(dt, 3)))
-    res['seconds'] += dt
+    r = 'unknown'
+    if zt > 0:
+        r, dt, err = _cli([Z3NEW, '-T:%d' % max(1, zt // 1000)], smt2, max(1, zt // 1000))
+        res['tried'].append(('z3-%s' % z3.get_version_string(), r, round(dt, 3)))
+        res['seconds'] += dt
     if r in ('unsat', 'sat'):
         res.update(verdict=r, backend='z3-%s' % z3.get_version_string(), model=model)
     if (r == 'unknown' or cross) and ct > 0:
@@ -213,6 +215,7 @@ def solve_one(job):
         res['tried'].append(('cvc5-1.0.3', r2, round(dt2, 3)))
         res['seconds'] += dt2
         if r2 == 'unknown' and r == 'unknown':
+            ct = max(8, ct // 2)
             r2b, dt2b, err = _cli(['/usr/bin/cvc5', '--strings-exp', '--enum-inst', '--tlimit=%d' % (ct * 1000)], smt2, ct)
             res['tried'].append(('cvc5-1.0.3 --enum-inst', r2b, round(dt2b, 3)))
             res['seconds'] += dt2b
